@@ -267,8 +267,31 @@ func c09One(c *Ctx, rng *lab.RNG, cs c09Case) {
 		}
 		return
 	}
+	// In a fifth of the decisions accesses of the newcomer's key are recorded concurrently (they need the policy
+	// mutex, so they cannot fall inside a decision): the estimate a decision uses must be the one valid under
+	// the mutex at that moment, which the hook recomputes.
+	stopInc := make(chan struct{})
+	incDone := make(chan struct{})
+	if cs.Stream%5 == 2 {
+		go func() {
+			defer close(incDone)
+			for i := 0; i < 200000; i++ {
+				select {
+				case <-stopInc:
+					return
+				default:
+				}
+				l.C.Increment(incHash, 1)
+			}
+		}()
+		r.Obs("decisions_with_concurrent_accesses", 1)
+	} else {
+		close(incDone)
+	}
 	ok := cl.Set(cs.IncKey, v, cs.IncCost, 0)
 	cl.Wait()
+	close(stopInc)
+	<-incDone
 	c09cur = nil
 	post := l.C.Snapshot()
 	cbs := l.CallbacksSince(n0)
